@@ -29,6 +29,7 @@ theorem rawPush_ok {sz : Nat} {l l' : RawList} {v : Nat}
     l'.elems = l.elems ++ [v] ∧ l'.len = l.len + 1 ∧ l'.locked = l.locked ∧ l'.rc = l.rc ∧
       l.cap ≤ l'.cap ∧ RawOk sz l' := by
   unfold rawPush at h
+  simp only [push_reserve_eq, push_len_add_eq] at h
   by_cases hz : sz > 0
   · simp only [hz, if_true] at h
     cases hr : reserve sz l 1 with
@@ -63,6 +64,7 @@ theorem rawPush_error {sz : Nat} {l : RawList} {v : Nat} {f : Fault}
     (h : rawPush sz l v = .error f) (ok : RawOk sz l) :
     f = .panic ∧ usizeMax < nextPow2 (l.len + 1) := by
   unfold rawPush at h
+  simp only [push_reserve_eq, push_len_add_eq] at h
   by_cases hz : sz > 0
   · simp only [hz, if_true] at h
     cases hr : reserve sz l 1 with
@@ -265,6 +267,7 @@ theorem rawExtend_ok {sz : Nat} {s o s' : RawList}
   have hws := oks.wf
   have hwo := oko.wf
   unfold rawExtend at h
+  simp only [extend_reserve_eq, extend_len_add_eq, RawList.view] at h
   rw [readAll_eq hwo] at h
   by_cases hz : sz = 0
   · simp only [hz, if_true] at h
@@ -301,6 +304,7 @@ theorem rawExtend_error {sz : Nat} {s o : RawList} {f : Fault}
     f = .panic ∧ usizeMax < nextPow2 (s.len + o.len) := by
   have hwo := oko.wf
   unfold rawExtend at h
+  simp only [extend_reserve_eq, extend_len_add_eq, RawList.view] at h
   rw [readAll_eq hwo] at h
   by_cases hz : sz = 0
   · simp only [hz, if_true] at h
